@@ -197,7 +197,10 @@ func (m *monC14) BeforeTx(w *World, tx *TxCtx) {
 }
 
 // haltCause adds the discriminating circumstance of a halt to its class.
-func haltCause(w *World) string {
+func haltCause(w *World, site string) string {
+	if site == "overflow" && acceptedOrdersOverflowSupply(w) {
+		return "/accepted-orders-exceed-256-bit-supply"
+	}
 	if w.M != nil && (w.M.Ent.Denom != w.T.Knobs.Ent.Denom || w.M.Ent.DenomChanged) {
 		return "/enterprise-denom-changed-by-governance"
 	}
@@ -205,6 +208,31 @@ func haltCause(w *World) string {
 		return "/gov-account-spent-by-proposal"
 	}
 	return ""
+}
+
+// acceptedOrdersOverflowSupply: the orders waiting to be minted, added to what exists of their
+// denomination, do not fit the 256 bits of an sdk.Int.
+func acceptedOrdersOverflowSupply(w *World) bool {
+	if w.M == nil {
+		return false
+	}
+	sums := map[string]*big.Int{}
+	for _, id := range sortedU64(w.M.Ent.Orders) {
+		if o := w.M.Ent.Orders[id]; o.Status == 2 {
+			if sums[o.Denom] == nil {
+				sums[o.Denom] = new(big.Int)
+			}
+			sums[o.Denom].Add(sums[o.Denom], o.Amount)
+		}
+	}
+	limit := new(big.Int).Lsh(big.NewInt(1), 256)
+	for _, d := range sortedKeys(sums) {
+		have := w.Ref.App.BankKeeper.GetSupply(w.CCtx(), d).Amount.BigInt()
+		if new(big.Int).Add(have, sums[d]).Cmp(limit) >= 0 {
+			return true
+		}
+	}
+	return false
 }
 
 // govSpendingProposal: a proposal whose messages spend from the governance module account itself
@@ -376,10 +404,10 @@ func (m *monC14) AfterBlock(w *World) {
 	if p, _ := safely(func() {
 		w.Ref.App.BeginBlocker(cctx, abci.RequestBeginBlock{Header: next, LastCommitInfo: LastCommit()})
 	}); p != "" {
-		w.Violate("C14", "C14/next-beginblock-would-panic/"+haltSite(p)+haltCause(w), "state after block %d: BeginBlock of the next height panics: %s", w.Hdr.Height, trunc(p, 200))
+		w.Violate("C14", "C14/next-beginblock-would-panic/"+haltSite(p)+haltCause(w, haltSite(p)), "state after block %d: BeginBlock of the next height panics: %s", w.Hdr.Height, trunc(p, 200))
 	}
 	if p, _ := safely(func() { w.Ref.App.EndBlocker(cctx, abci.RequestEndBlock{Height: next.Height}) }); p != "" {
-		w.Violate("C14", "C14/next-endblock-would-panic/"+haltSite(p)+haltCause(w), "state after block %d: EndBlock of the next height panics: %s", w.Hdr.Height, trunc(p, 200))
+		w.Violate("C14", "C14/next-endblock-would-panic/"+haltSite(p)+haltCause(w, haltSite(p)), "state after block %d: EndBlock of the next height panics: %s", w.Hdr.Height, trunc(p, 200))
 	}
 	w.Probe("c14.next-block-probe")
 }
@@ -387,6 +415,6 @@ func (m *monC14) AfterBlock(w *World) {
 func (m *monC14) AtEnd(w *World) {
 	if w.St.Halted != "" {
 		where := strings.SplitN(w.St.Halted, ":", 2)[0]
-		w.Violate("C14", "C14/halt/"+where+"/"+haltSite(w.St.Halted)+haltCause(w), "chain halted at block %d: %s", w.BlockIdx, trunc(w.St.Halted, 300))
+		w.Violate("C14", "C14/halt/"+where+"/"+haltSite(w.St.Halted)+haltCause(w, haltSite(w.St.Halted)), "chain halted at block %d: %s", w.BlockIdx, trunc(w.St.Halted, 300))
 	}
 }
